@@ -340,6 +340,7 @@ type Result struct {
 	Raw        object.Object `json:"-"` // the object the engine returned
 	Trace      []string
 	Globals    map[string]lang.Value // after the run (hook); nil if unavailable
+	Drift      string                // arguments kept by a host function that changed afterwards
 	ScopeDepth int                   // open scopes after the run (hook)
 	StackDepth int                   // entries left on the value stack (hook)
 }
@@ -348,6 +349,55 @@ type Result struct {
 type Runner struct {
 	E     *evalfilter.Eval
 	Trace []string
+	kept  []keptCall
+}
+
+// keptCall: what a host function was handed, kept the way a host may keep it
+// (the slice and the objects themselves), with what it said at the time.
+type keptCall struct {
+	args []object.Object
+	desc string
+}
+
+func describeArgs(args []object.Object) string {
+	parts := make([]string, len(args))
+	for i, a := range args {
+		if a == nil {
+			parts[i] = "<nil>"
+			continue
+		}
+		parts[i] = string(a.Type()) + ":" + a.Inspect()
+	}
+	return strings.Join(parts, ",")
+}
+
+func (r *Runner) keep(args []object.Object) {
+	if len(r.kept) < 48 && len(args) > 0 {
+		r.kept = append(r.kept, keptCall{args: args, desc: describeArgs(args)})
+	}
+}
+
+// Drift reports the first host-function call whose arguments, kept by the
+// host, no longer read as they did when the call was made.
+func (r *Runner) Drift() (s string) {
+	defer func() {
+		if p := recover(); p != nil {
+			s = fmt.Sprintf("reading the arguments a host function was given panicked: %v", p)
+		}
+	}()
+	for _, k := range r.kept {
+		if now := describeArgs(k.args); now != k.desc {
+			if len(now) > 300 {
+				now = now[:300] + "..."
+			}
+			was := k.desc
+			if len(was) > 300 {
+				was = was[:300] + "..."
+			}
+			return fmt.Sprintf("a host function was called with (%s); the same arguments, kept by the host, later read (%s)", was, now)
+		}
+	}
+	return ""
 }
 
 // NewRunner creates an evaluator for script with the standard host
@@ -365,6 +415,7 @@ func NewRunner(script string) *Runner {
 			}
 		}
 		r.Trace = append(r.Trace, "trace("+strings.Join(parts, ",")+")")
+		r.keep(args)
 		return &object.Void{}
 	})
 	// walk(x, n): a host function that looks at its argument the way the
@@ -394,6 +445,7 @@ func NewRunner(script string) *Runner {
 			return &object.Null{}
 		}
 		r.Trace = append(r.Trace, "id("+string(args[0].Type())+":"+args[0].Inspect()+")")
+		r.keep(args)
 		return args[0]
 	})
 	return r
@@ -441,6 +493,7 @@ func (r *Runner) Execute(obj interface{}) (res Result) {
 			res.Panic = p
 		}
 		res.Trace = r.Trace
+		res.Drift = r.Drift()
 		func() {
 			defer func() { _ = recover() }()
 			var gerr error
